@@ -26,7 +26,7 @@ import ast
 import z3
 
 from . import contract as C
-from .values import (BoundMethod, BuiltinV, DictObj, ExcObj, ListObj, PyObj, Ref, SetObj, SV, T, TBool, TCallable, TDict, TInt, TList, TOpt, TReal, TStr,
+from .values import (BoundMethod, BuiltinV, DictObj, ExcObj, ListObj, PyObj, Ref, SetObj, SV, T, TBool, TCallable, TDict, TInt, TList, TOpt, TReal, TRec, TStr,
                      TVal, Unsupported, ValS, StrS, str_lit)
 
 c03_bound_method = z3.Function("c03_bound_method", z3.IntSort(), StrS, ValS)
@@ -62,6 +62,36 @@ class TExc(T):
 
     def fresh(self, st, hint):
         return st.alloc(ExcObj(self.cls))
+
+
+class TFieldOfSelf(T):
+    """Parameter that IS the object held by a field of `self` (e.g. `problem` of BaseDOELibrary._run is `self._problem`: execute binds the driver
+    to the problem before the run).  `fresh` returns the reference stored in that field of the already created receiver."""
+
+    def __init__(self, cls: str, field: str):
+        self.cls, self.field = cls, field
+        self.name = f"FieldOfSelf[{cls}.{field}]"
+
+    def sort(self):
+        raise Unsupported("an object reference cannot be stored in a symbolic container")
+
+    def fresh(self, st, hint):
+        for i in sorted(st.heap.keys() if hasattr(st.heap, "keys") else [k for k, _ in st.heap.items()]):
+            o = st.heap[i]
+            if isinstance(o, PyObj) and o.cls == self.cls and self.field in o.fields:
+                return o.fields[self.field]
+        raise Unsupported(f"{self.name}: no receiver of class {self.cls} on the heap")
+
+
+class ParExec03:
+    """A CallableParallelExecution object built on a list of workers (opaque; only `.execute` is modelled, by a summary the contract module provides)."""
+
+    def __init__(self, workers):
+        self.workers = workers
+
+
+PAREXEC_SUMMARY = {}  # "execute" -> summary(ex, parexec, args, kwargs, lineno), installed by contracts/c03_driver.py
+CPE = "gemseo.core.parallel_execution.callable_parallel_execution.CallableParallelExecution"
 
 
 def bound_method_term(obj_id: int, name: str):
@@ -203,6 +233,9 @@ class C03Models:
                 return NotImplemented
         if _on(ex) and isinstance(v, Ref) and isinstance(t, TOpt) and isinstance(ex.st.heap.get(v.id), (SetObj, ListObj, DictObj)):
             return SV(t.embed(ex.st, v), t)  # a container passed (by value: it is only read) for an optional parameter
+        if _on(ex) and isinstance(v, SV) and v.ty.name == "Nd" and isinstance(t, TRec) and t.cls == "gemseo.algos.hashable_ndarray.HashableNdarray" \
+                and list(t.fields) == ["wrapped_array"]:
+            return t.mk(ex.st, wrapped_array=v)  # Database.store(x, ..) with a plain array: get_hashable_ndarray wraps it (content key)
         if _on(ex) and isinstance(v, SV) and v.ty == TVal:
             if t == TReal:
                 return SV(val_as_real(v.term), TReal)
@@ -212,6 +245,11 @@ class C03Models:
                 return SV(val_as_int(v.term), TInt)
             if t == TStr:
                 return SV(val_as_str(v.term), TStr)
+        return NotImplemented
+
+    def value_attr(self, ex, obj, attr, lineno):
+        if isinstance(obj, ParExec03) and attr == "execute":
+            return BoundMethod(obj, None, "c03.parexec.execute")
         return NotImplemented
 
     def truth(self, ex, v):
@@ -246,6 +284,8 @@ class C03Models:
         del short
         from . import source as S
 
+        if cv.qualname == CPE and getattr(ex.contract, "c03_parallel", False):
+            return ParExec03(args[0] if args else kwargs.get("workers"))
         if cv.qualname in TESTER_CLASSES and not args:
             # dataclass constructor (generated __init__): the keyword arguments become the fields, the others take their class-level defaults
             o = PyObj(cv.qualname, {})
@@ -272,6 +312,8 @@ class C03Models:
 
     # ------------------------------------------------------------------ methods
     def call_method(self, ex, recv, name, args, kwargs, lineno):
+        if isinstance(recv, ParExec03) and name == "c03.parexec.execute":
+            return PAREXEC_SUMMARY["execute"](ex, recv, args, kwargs, lineno)
         if not _on(ex):
             return NotImplemented
         st = ex.st
